@@ -1732,7 +1732,7 @@ def run(ctx):
     t4cases, t4index, txcases, txindex = run_t4(ctx, 60 if quick else 1500, tap)
     shcases, shindex = run_shipped(ctx, tap) if tap is not None else ([], [])
     optproc, optfiles = start_optimised(ctx, *((10, 3, 4) if quick else (120, 40, 40)))
-    mcases, mindex = run_t4_mesh(ctx, 24 if quick else 400)
+    mcases, mindex = run_t4_mesh(ctx, 16 if quick else 400)
     t4cases, t4index = t4cases + mcases, t4index + mindex
     apcases, apindex = run_ap3(ctx, 40 if quick else 500)
     run_histories(ctx, 16 if quick else 200)
